@@ -7,7 +7,8 @@
    ruamel ScalarBoolean) and all term texts [needle].  [th]/[tn] are the typed
    readings of value and term (Nodes.typed_value). *)
 From Coq Require Import List Ascii String ZArith QArith Bool.
-From YP Require Import Outcome PyStr PyVal PathParser Searches SearchLoops SpecC12 SearchProofs.
+From Coq Require Import NArith.
+From YP Require Import Outcome PyStr PyVal Doc PathParser Searches SearchLoops SpecC12 SearchProofs Eval SearchCands SearchLink.
 Import ListNotations.
 Open Scope string_scope.
 
@@ -184,6 +185,97 @@ Theorem C12_list_pointwise_refuted_before_fix :
     nth_error cs 1 = Some (LDesc []) /\ In 1 res.
 Proof. exact list_loop_before_fix_stale. Qed.
 
+(* ---- inversion over DOCUMENTS ----
+   The theorems above are about the loops of Model/SearchLoops.v, whose input is
+   a candidate list.  Model/SearchCands.v computes that list from a Doc.node and
+   a search segment ([sc_cands_of]: list elements incl. the Array-of-Hashes
+   key-name shortcut, hash keys on '.', hash attribute, the nodes of the
+   descendant search, set members, scalar self; [rq] is the evaluator of the
+   attribute path, any function) and lists the NodeCoords under which each
+   candidate is yielded ([sc_items]).  The evaluator model's [by_search]
+   (Model/Eval.v, the function the query evaluator of C01 / C15 runs) REFINES
+   the loops: it yields exactly the candidates whose positions the loop yields,
+   in that order, and where a comparison raises it stops with that exception. *)
+Theorem C12_search_refines :
+  forall lit re_search nstr vstr rq inv m attr term n c cands,
+    sc_cands_of nstr vstr rq attr term n c = Ok cands ->
+    sc_refines (by_search lit re_search nstr vstr rq inv m attr term (RNode n) c)
+               (sc_run lit re_search inv m term cands) (sc_items attr n c).
+Proof. exact by_search_refines. Qed.
+Print Assumptions C12_search_refines.
+
+(* For every document node [n] (reached in any context [c]) and every search
+   segment `[attr OP term]` whose attribute path can be evaluated at every
+   candidate and reaches at most one node below a HASH candidate
+   ([sc_guard] = the listed finding F12a; the list loop only ever looks at the
+   first node, so lists need no guard): the items of the inverted search are
+   exactly the candidates the plain search does not yield, in candidate order --
+   [mask] marks the candidates the plain search yields ([sc_matches]: the
+   comparison's answers), the inverted search yields the others. *)
+Theorem C12_inversion_doc :
+  forall lit re_search nstr vstr rq m attr term n c cands plain inv,
+    sc_cands_of nstr vstr rq attr term n c = Ok cands ->
+    sc_guard cands = true ->
+    by_search lit re_search nstr vstr rq false m attr term (RNode n) c = (plain, Done) ->
+    by_search lit re_search nstr vstr rq true m attr term (RNode n) c = (inv, Done) ->
+    exists mask,
+      sc_matches lit re_search m term cands = Ok mask /\
+      List.length mask = List.length (sc_items attr n c) /\
+      plain = sc_select mask (sc_items attr n c) /\
+      inv = sc_select (map negb mask) (sc_items attr n c).
+Proof. exact inversion_doc. Qed.
+Print Assumptions C12_inversion_doc.
+
+(* the same in the vocabulary of the loop theorems: positions and [complement] *)
+Theorem C12_inversion_doc_positions :
+  forall lit re_search nstr vstr rq m attr term n c cands plain inv,
+    sc_cands_of nstr vstr rq attr term n c = Ok cands ->
+    sc_guard cands = true ->
+    by_search lit re_search nstr vstr rq false m attr term (RNode n) c = (plain, Done) ->
+    by_search lit re_search nstr vstr rq true m attr term (RNode n) c = (inv, Done) ->
+    exists pi ii,
+      sc_run lit re_search false m term cands = Ok pi /\ sc_run lit re_search true m term cands = Ok ii /\
+      plain = sc_pick pi (sc_items attr n c) /\ inv = sc_pick ii (sc_items attr n c) /\
+      complement (sc_count cands) pi ii.
+Proof. exact inversion_doc_positions. Qed.
+Print Assumptions C12_inversion_doc_positions.
+
+(* ... and for a search segment as the dispatcher of the query evaluator runs it
+   (`_get_nodes_by_path_segment`): [segs] / [segs'] are any two prepared paths
+   whose i-th segments differ only in the inversion flag *)
+Theorem C12_inversion_doc_dispatch :
+  forall lit re_search nstr vstr kw_handler self sg_next rqp segs i us sub sub2 m attr term n c cands plain inv segs',
+    nth_error segs i = Some (PSeg (Some TSearch, ASearch false m attr term) us sub sub2) ->
+    nth_error segs' i = Some (PSeg (Some TSearch, ASearch true m attr term) us sub sub2) ->
+    sc_cands_of nstr vstr (rqp sub) attr term n c = Ok cands ->
+    sc_guard cands = true ->
+    dispatch lit re_search nstr vstr kw_handler self sg_next rqp segs i (RNode n) c = (plain, Done) ->
+    dispatch lit re_search nstr vstr kw_handler self sg_next rqp segs' i (RNode n) c = (inv, Done) ->
+    exists mask,
+      sc_matches lit re_search m term cands = Ok mask /\
+      List.length mask = List.length (sc_items attr n c) /\
+      plain = sc_select mask (sc_items attr n c) /\
+      inv = sc_select (map negb mask) (sc_items attr n c).
+Proof. exact inversion_dispatch. Qed.
+Print Assumptions C12_inversion_doc_dispatch.
+
+(* without the guard the statement is FALSE of the code (listed finding F12a):
+   {a: {x: 1, y: 2}} with [a.*=1] and [a.*!=1] -- the attribute path evaluated by
+   the evaluator model itself -- both yield the hash *)
+Theorem C12_inversion_doc_refuted :
+  exists cands plain inv,
+    sc_cands_of sc_demo_nstr sc_demo_vstr (sc_demo_rq "a.*") "a.*" "1" sc_doc_f12a root_ctx = Ok cands /\
+    sc_guard cands = false /\
+    by_search sc_demo_lit sc_demo_re sc_demo_nstr sc_demo_vstr (sc_demo_rq "a.*") false MEquals "a.*" "1"
+              (RNode sc_doc_f12a) root_ctx = (plain, Done) /\
+    by_search sc_demo_lit sc_demo_re sc_demo_nstr sc_demo_vstr (sc_demo_rq "a.*") true MEquals "a.*" "1"
+              (RNode sc_doc_f12a) root_ctx = (inv, Done) /\
+    sc_oids plain = [1%N] /\ sc_oids inv = [1%N] /\
+    ~ exists mask, plain = sc_select mask (sc_items "a.*" sc_doc_f12a root_ctx) /\
+                   inv = sc_select (map negb mask) (sc_items "a.*" sc_doc_f12a root_ctx).
+Proof. exact inversion_doc_refuted. Qed.
+Print Assumptions C12_inversion_doc_refuted.
+
 (* ---- non-vacuity ---- *)
 Definition ex_lit := lit_of_table
   [("1", LVal (PInt 1)); ("5", LVal (PInt 5)); ("5.0", LVal (PFloat (5 # 1) "5.0")); ("abc", LFail);
@@ -229,3 +321,61 @@ Example C12_ex_inversion_desc :
   desc_site ex_lit ex_re true MEquals "1" [HVal (PInt 1)] = Ok [] /\
   desc_site ex_lit ex_re true MEquals "1" [] = Ok [0].
 Proof. vm_compute. repeat split; reflexivity. Qed.
+
+(* ---- non-vacuity of C12_inversion_doc: its hypotheses hold, and this is what
+   the two searches yield (objects by identity), on a list, a hash (key names,
+   a named attribute, a descendant path reaching one node), a set and an
+   Array-of-Hashes (key-name shortcut with a null element; named attribute with
+   a record lacking it) ---- *)
+Definition ex_rq0 (_ : rval) (_ : ctx) : gen rval := gnil.
+Definition ex_doc_check (rq : rval -> ctx -> gen rval) (attr term : string) (n : node) (count : nat)
+           (want_plain want_inv : list N) : Prop :=
+  (exists cands, sc_cands_of sc_demo_nstr sc_demo_vstr rq attr term n root_ctx = Ok cands /\
+                 sc_guard cands = true /\ sc_count cands = count) /\
+  (let g := by_search sc_demo_lit sc_demo_re sc_demo_nstr sc_demo_vstr rq false MEquals attr term (RNode n) root_ctx in
+   (sc_oids (fst g), snd g) = (want_plain, Done)) /\
+  (let g := by_search sc_demo_lit sc_demo_re sc_demo_nstr sc_demo_vstr rq true MEquals attr term (RNode n) root_ctx in
+   (sc_oids (fst g), snd g) = (want_inv, Done)).
+
+(* [1, 5, abc] with [.=1] *)
+Example C12_ex_doc_list :
+  ex_doc_check ex_rq0 "." "1"
+    (NSeq (sc_inf 1) [sc_leaf 2 (PInt 1); sc_leaf 3 (PInt 5); sc_leaf 4 (PStr "abc")]) 3 [2%N] [3%N; 4%N].
+Proof. vm_compute. split; [eexists; repeat split|split; reflexivity]. Qed.
+(* {a: 1, b: 5, 1: x} with [.=1]: key names, values yielded *)
+Example C12_ex_doc_hash_keys :
+  ex_doc_check ex_rq0 "." "1"
+    (NMap (sc_inf 1) [(sc_leaf 2 (PStr "a"), sc_leaf 3 (PInt 1)); (sc_leaf 4 (PStr "b"), sc_leaf 5 (PInt 5));
+                      (sc_leaf 6 (PInt 1), sc_leaf 7 (PStr "x"))]) 3 [7%N] [3%N; 5%N].
+Proof. vm_compute. split; [eexists; repeat split|split; reflexivity]. Qed.
+(* {a: 1, b: 5} with [a=1]: the attribute's value is the candidate *)
+Example C12_ex_doc_hash_attr :
+  ex_doc_check ex_rq0 "a" "1"
+    (NMap (sc_inf 1) [(sc_leaf 2 (PStr "a"), sc_leaf 3 (PInt 1)); (sc_leaf 4 (PStr "b"), sc_leaf 5 (PInt 5))])
+    1 [3%N] [].
+Proof. vm_compute. split; [eexists; repeat split|split; reflexivity]. Qed.
+(* {a: {k: 5}} with [a.k=1]: the descendant path (evaluated by the evaluator model) reaches one node *)
+Example C12_ex_doc_hash_desc :
+  ex_doc_check (sc_demo_rq "a.k") "a.k" "1"
+    (NMap (sc_inf 1) [(sc_leaf 2 (PStr "a"), NMap (sc_inf 3) [(sc_leaf 4 (PStr "k"), sc_leaf 5 (PInt 5))])])
+    1 [] [1%N].
+Proof. vm_compute. split; [eexists; repeat split|split; reflexivity]. Qed.
+(* !!set {a, 1, b} with [.=1] *)
+Example C12_ex_doc_set :
+  ex_doc_check ex_rq0 "." "1"
+    (NSet (sc_inf 1) [sc_leaf 2 (PStr "a"); sc_leaf 3 (PInt 1); sc_leaf 4 (PStr "b")]) 3 [3%N] [2%N; 4%N].
+Proof. vm_compute. split; [eexists; repeat split|split; reflexivity]. Qed.
+(* [{a: 1}, ~, {b: 2}] with [.=a]: in an Array-of-Hashes a hash HAVING the key matches *)
+Example C12_ex_doc_aoh_keyname :
+  ex_doc_check ex_rq0 "." "a"
+    (NSeq (sc_inf 1) [NMap (sc_inf 2) [(sc_leaf 3 (PStr "a"), sc_leaf 4 (PInt 1))]; sc_leaf 5 PNone;
+                      NMap (sc_inf 6) [(sc_leaf 7 (PStr "b"), sc_leaf 8 (PInt 2))]]) 3 [2%N] [5%N; 6%N].
+Proof. vm_compute. split; [eexists; repeat split|split; reflexivity]. Qed.
+(* [{a: 1}, {a: 5}, {b: 1}] with [a=1]: the record lacking `a` is searched by descent, finds nothing,
+   and is yielded by the inverted search *)
+Example C12_ex_doc_aoh_attr :
+  ex_doc_check (sc_demo_rq "a") "a" "1"
+    (NSeq (sc_inf 1) [NMap (sc_inf 2) [(sc_leaf 3 (PStr "a"), sc_leaf 4 (PInt 1))];
+                      NMap (sc_inf 5) [(sc_leaf 3 (PStr "a"), sc_leaf 6 (PInt 5))];
+                      NMap (sc_inf 7) [(sc_leaf 8 (PStr "b"), sc_leaf 4 (PInt 1))]]) 3 [2%N] [5%N; 7%N].
+Proof. vm_compute. split; [eexists; repeat split|split; reflexivity]. Qed.
